@@ -83,6 +83,22 @@ func TestC14DelaySchedules(t *testing.T) {
 			close(stop)
 			vnet.VerifSetHooks(nil)
 		}()
+		stamped := rapid.Bool().Draw(t, "stamped")
+		pre := make([][]vnet.Chunk, ns)
+		if stamped {
+			c.Label("chunks/stamped-earlier")
+			for i := 0; i < ns; i++ {
+				for k := 0; k < counts[i]; k++ {
+					p := make([]byte, 12)
+					binary.BigEndian.PutUint32(p, uint32(i))
+					binary.BigEndian.PutUint32(p[4:], uint32(k))
+					ch := vnet.VerifNewChunkUDP(srcAddr, dstAddr, p)
+					vnet.VerifStamp(ch)
+					pre[i] = append(pre[i], ch)
+				}
+			}
+			time.Sleep(delay) // the stamps are at least one delay old when the chunks arrive
+		}
 		runTask := s.Go("run", func() { f.Run(ctx) })
 		before := make([][]time.Time, ns)
 		for i := 0; i < ns; i++ {
@@ -94,6 +110,12 @@ func TestC14DelaySchedules(t *testing.T) {
 					binary.BigEndian.PutUint32(p, uint32(i))
 					binary.BigEndian.PutUint32(p[4:], uint32(k))
 					ch := vnet.VerifNewChunkUDP(srcAddr, dstAddr, p)
+					if stamped {
+						// the chunk carries the stamp of a router it entered earlier (it was made and
+						// stamped when the case began); the filter's delay counts from the arrival
+						// at the filter all the same
+						ch = pre[i][k]
+					}
 					before[i][k] = time.Now()
 					vnet.VerifInbound(f, ch)
 				}
